@@ -73,8 +73,18 @@ func (fx *FuncCtx) selectModel(st *State, in *ssa.Select) {
 				fx.assumeTyping(s, v)
 				if j == idx {
 					ch := cases[j].ch
+					if len(v.C) >= 1 {
+						fx.decls.declare("CH$nonnil", "(Array Int Bool)")
+						s.assume(implies(and(sx("select", "CH$nonnil", ch), ok), not(eq(v.C[0], "0"))))
+					}
 					l := fx.chLenOf(s, ch)
 					closed := sx("select", fx.heapGet(s.heap, chClosed), ch)
+					fx.decls.declare("CH$signal", "(Array Int Bool)")
+					s.assume(implies(sx("select", "CH$signal", ch), closed))
+					if signalOnly(sc.Chan.Type()) {
+						s.assume(closed)
+						fx.trusted["signal channels: a completed receive from a `<-chan struct{}` (Done()-style channel, never sent to) means the channel is closed"] = true
+					}
 					s.assume(implies(and(closed, eq(l, "0")), not(ok)))
 					s.assume(implies(not(closed), ok))
 					fx.heapSet(s, chLen, sx("store", fx.heapGet(s.heap, chLen), ch, ite(sx(">", l, "0"), sx("-", l, "1"), l)))
@@ -226,6 +236,10 @@ func (fx *FuncCtx) recvModel(st *State, in *ssa.UnOp, chv Val) {
 	ok := fx.decls.fresh("recvok", "Bool")
 	l := fx.chLenOf(st, ch)
 	closed := sx("select", fx.heapGet(st.heap, chClosed), ch)
+	if signalOnly(chv.T) {
+		st.assume(closed)
+		fx.trusted["signal channels: a completed receive from a `<-chan struct{}` (Done()-style channel, never sent to) means the channel is closed"] = true
+	}
 	st.assume(implies(and(closed, eq(l, "0")), not(ok)))
 	st.assume(implies(not(closed), ok))
 	fx.heapSet(st, chLen, sx("store", fx.heapGet(st.heap, chLen), ch, ite(sx(">", l, "0"), sx("-", l, "1"), l)))
@@ -265,4 +279,14 @@ func (fx *FuncCtx) nextModel(st *State, in *ssa.Next) {
 	fx.assumeTyping(st, v)
 	st.regs[in] = Val{T: in.Type(), Tup: []Val{{T: BoolT, C: []string{ok}}, k, v}}
 	fx.trusted["map iteration modelled as an arbitrary sequence of present keys (no each-key-once guarantee)"] = true
+}
+
+// signalOnly: receive-only channel of empty structs (Done()-style)
+func signalOnly(t types.Type) bool {
+	c, ok := t.Underlying().(*types.Chan)
+	if !ok || c.Dir() != types.RecvOnly {
+		return false
+	}
+	st, ok := c.Elem().Underlying().(*types.Struct)
+	return ok && st.NumFields() == 0
 }
